@@ -467,3 +467,89 @@ pub fn guarded_eventless(rng: &mut crate::rng::Rng, idx: usize) -> (Doc, Vec<Vec
     }
     (d, paths)
 }
+
+/// Nested parallels in which the *same* event is handled at many places at once: on atomic states, on their
+/// compound / parallel ancestors and in sibling regions, with targets inside the own region, in another region,
+/// outside the whole parallel or none.  One event then enables three and more transitions whose exit sets
+/// intersect in chains (a pre-empts b, c conflicts with a but not with b, …) - the inputs of the conflict
+/// resolution that small random documents rarely produce.
+pub fn conflict_tree(rng: &mut crate::rng::Rng, dm: Dm, idx: usize) -> (Doc, Vec<Vec<String>>) {
+    struct B<'a> {
+        rng: &'a mut crate::rng::Rng,
+        dm: Dm,
+        n: usize,
+        atoms: Vec<String>,
+        all: Vec<String>,
+    }
+    impl<'a> B<'a> {
+        fn region(&mut self, depth: usize) -> Node {
+            self.n += 1;
+            let k = self.n;
+            let id = format!("c{}", k);
+            let mut c = st(&id, Kind::State, self.dm);
+            let kids = 2 + self.rng.below(2);
+            for j in 0..kids {
+                if j == 0 && depth < 3 && self.rng.chance(2, 5) {
+                    c.children.push(self.par(depth + 1));
+                } else {
+                    let aid = format!("c{}a{}", k, j);
+                    self.atoms.push(aid.clone());
+                    self.all.push(aid.clone());
+                    c.children.push(st(&aid, Kind::State, self.dm));
+                }
+            }
+            self.all.push(id);
+            c
+        }
+        fn par(&mut self, depth: usize) -> Node {
+            self.n += 1;
+            let id = format!("q{}", self.n);
+            let mut p = st(&id, Kind::Parallel, self.dm);
+            for _ in 0..2 + self.rng.below(2) {
+                let r = self.region(depth);
+                p.children.push(r);
+            }
+            self.all.push(id);
+            p
+        }
+    }
+    let mut b = B { rng, dm, n: 0, atoms: vec![], all: vec![] };
+    let mut top = b.par(1);
+    let top_id = top.id.clone();
+    // transitions on the shared events
+    let all = b.all.clone();
+    let atoms = b.atoms.clone();
+    fn decorate(n: &mut Node, rng: &mut crate::rng::Rng, all: &[String], atoms: &[String], dm: Dm) {
+        let mut k = 0;
+        for ev in ["e1", "e2"] {
+            if rng.chance(3, 5) {
+                let targets: Vec<String> = match rng.below(6) {
+                    0 => vec![],
+                    1 => vec!["out".to_string()],
+                    2 | 3 => vec![atoms[rng.below(atoms.len())].clone()],
+                    _ => vec![all[rng.below(all.len())].clone()],
+                };
+                let tv: Vec<&str> = targets.iter().map(|s| s.as_str()).collect();
+                let mut t = tr(&format!("{}.{}", n.id, k), ev, &tv, dm);
+                t.internal = rng.chance(1, 6);
+                n.trans.push(t);
+                k += 1;
+            }
+        }
+        for c in &mut n.children {
+            decorate(c, rng, all, atoms, dm);
+        }
+    }
+    decorate(&mut top, b.rng, &all, &atoms, dm);
+    let mut out = st("out", Kind::State, dm);
+    out.trans.push(tr("out.0", "e3", &[&top_id], dm));
+    out.trans.push(tr("out.1", "e1", &[&atoms[b.rng.below(atoms.len())]], dm));
+    let d = doc(&format!("conflict-tree-{}", idx), dm, vec![top, out]);
+    let mut paths = Vec::new();
+    for _ in 0..6 {
+        let len = 3 + b.rng.below(8);
+        let path: Vec<String> = (0..len).map(|_| ["e1", "e2", "e3", "e1"][b.rng.below(4)].to_string()).collect();
+        paths.push(path);
+    }
+    (d, paths)
+}
